@@ -737,3 +737,164 @@ func init() {
 			return obs
 		}})
 }
+
+// SCHEMA.float-bound-positive — C14 ("a numeric bound accepts exactly the
+// numbers on its side of the bound"): every ordering comparison with NaN is
+// false.  A bound written "fail if the OPPOSITE relation holds" therefore
+// accepts NaN — on both sides of the bound, and for (s:positive) and
+// (s:negative) at once.  The failing branch of a float bound must be guarded by
+// the NEGATION of the required relation (`!(x > bound)`), or NaN must be
+// excluded explicitly.
+func init() {
+	register(&Rule{ID: "SCHEMA.float-bound-positive", Floor: 6,
+		Doc: "in libschema every validator closure that decides on an ordering comparison of two float64 operands (s:gt, s:gte, s:lt, s:lte, s:positive, s:negative) reaches its failure return through the negation of a comparison — `if !(x OP bound) { fail }` — or after a math.IsNaN test of the operand: a value that compares false to everything (NaN) fails the bound instead of passing every bound",
+		Run: func(c *Ctx) []Obligation {
+			const rid = "SCHEMA.float-bound-positive"
+			var obs []Obligation
+			isF64 := func(info *types.Info, e ast.Expr) bool {
+				tv, ok := info.Types[e]
+				if !ok {
+					return false
+				}
+				b, ok := tv.Type.Underlying().(*types.Basic)
+				return ok && (b.Kind() == types.Float64 || b.Kind() == types.UntypedFloat || b.Kind() == types.UntypedInt)
+			}
+			for _, u := range c.Funcs(func(p string) bool { return rel(p) == "lisp/lisplib/libschema" }) {
+				if u.Decl == nil || u.Decl.Body == nil {
+					continue
+				}
+				info := u.Pkg.TypesInfo
+				ord := &ordinal{}
+				ast.Inspect(u.Decl.Body, func(n ast.Node) bool {
+					lit, ok := n.(*ast.FuncLit)
+					if !ok {
+						return true
+					}
+					hasNaNTest := false
+					for _, ce := range callsIn(lit.Body, false) {
+						if stdFuncCalled(info, ce, "math", "IsNaN") {
+							hasNaNTest = true
+						}
+					}
+					ast.Inspect(lit.Body, func(m ast.Node) bool {
+						is, ok := m.(*ast.IfStmt)
+						if !ok || len(is.Body.List) == 0 {
+							return true
+						}
+						ret, ok := is.Body.List[len(is.Body.List)-1].(*ast.ReturnStmt)
+						if !ok || len(ret.Results) != 1 {
+							return true
+						}
+						if ce, ok := ast.Unparen(ret.Results[0]).(*ast.CallExpr); !ok || !strings.Contains(types.ExprString(ce.Fun), "ErrorCondition") {
+							return true
+						}
+						cond := ast.Unparen(is.Cond)
+						negated := false
+						if ue, ok := cond.(*ast.UnaryExpr); ok && ue.Op == token.NOT {
+							negated = true
+							cond = ast.Unparen(ue.X)
+						}
+						be, ok := cond.(*ast.BinaryExpr)
+						if !ok {
+							return true
+						}
+						switch be.Op {
+						case token.LSS, token.LEQ, token.GTR, token.GEQ:
+						default:
+							return true
+						}
+						if !isF64(info, be.X) || !isF64(info, be.Y) {
+							return true
+						}
+						// at least one side must be a float64 variable (not both constants)
+						tx, ty := info.Types[be.X], info.Types[be.Y]
+						if tx.Value != nil && ty.Value != nil {
+							return true
+						}
+						construct := ord.next("bound " + types.ExprString(is.Cond))
+						switch {
+						case negated:
+							obs = append(obs, mkOb(c, rid, u, construct, is, Proved, "fails unless the relation holds (NaN fails)", true))
+						case hasNaNTest:
+							obs = append(obs, mkOb(c, rid, u, construct, is, Proved, "NaN is tested for explicitly in this validator", true))
+						default:
+							obs = append(obs, mkOb(c, rid, u, construct, is, Violated, "the validator fails when `"+types.ExprString(is.Cond)+"` holds and passes otherwise: NaN makes every comparison false, so it passes this bound and its opposite — (s:validate (s:make-validator \"n\" s:number (s:gt 10) (s:lt 0)) (/ 0.0 0.0)) is accepted", true))
+						}
+						return true
+					})
+					return false
+				})
+			}
+			return obs
+		}})
+
+	// SCHEMA.typedef-tag-checked — C14 ("validate succeeds exactly when the value has
+	// the declared type"): a validator made from a typedef declares THAT type.  A
+	// tagged value of another type is not of the declared type even when what it
+	// wraps would satisfy the constraints; the tag is the type.
+	register(&Rule{ID: "SCHEMA.typedef-tag-checked", Floor: 1,
+		Doc: "in builtinMakeValidator, when the first argument is a typedef, the validator that is returned compares the input's tag (LVal.Str of the tagged value) with the typedef's own name taken from its user data: (s:make-validator ta …) refuses (new tb …)",
+		Run: func(c *Ctx) []Obligation {
+			const rid = "SCHEMA.typedef-tag-checked"
+			fn, fd, pkg := c.LookupFunc("lisp/lisplib/libschema.builtinMakeValidator")
+			if fn == nil {
+				return []Obligation{anchorMissing(rid, "libschema.builtinMakeValidator")}
+			}
+			u := FuncUnit{fn, fd, pkg}
+			info := pkg.TypesInfo
+			// locals that hold the typedef's name: assigned from an expression mentioning UserData()
+			tagVars := map[types.Object]bool{}
+			for pass := 0; pass < 2; pass++ {
+				ast.Inspect(fd.Body, func(n ast.Node) bool {
+					as, ok := n.(*ast.AssignStmt)
+					if !ok || len(as.Lhs) != len(as.Rhs) {
+						return true
+					}
+					for i, r := range as.Rhs {
+						o := identObj(info, as.Lhs[i])
+						if o == nil {
+							continue
+						}
+						if strings.Contains(types.ExprString(r), "UserData()") {
+							tagVars[o] = true
+						}
+						if ro := identObj(info, r); ro != nil && tagVars[ro] {
+							tagVars[o] = true
+						}
+					}
+					return true
+				})
+			}
+			found := ast.Node(nil)
+			ast.Inspect(fd.Body, func(n ast.Node) bool {
+				lit, ok := n.(*ast.FuncLit)
+				if !ok || lit.Type.Params == nil {
+					return true
+				}
+				params := map[types.Object]bool{}
+				for _, f := range lit.Type.Params.List {
+					for _, nm := range f.Names {
+						params[info.Defs[nm]] = true
+					}
+				}
+				ast.Inspect(lit.Body, func(m ast.Node) bool {
+					be, ok := m.(*ast.BinaryExpr)
+					if !ok || be.Op != token.EQL && be.Op != token.NEQ {
+						return true
+					}
+					for _, pair := range [][2]ast.Expr{{be.X, be.Y}, {be.Y, be.X}} {
+						se, ok := ast.Unparen(pair[0]).(*ast.SelectorExpr)
+						if ok && se.Sel.Name == "Str" && params[identObj(info, se.X)] && tagVars[identObj(info, pair[1])] {
+							found = be
+						}
+					}
+					return true
+				})
+				return true
+			})
+			if found != nil {
+				return []Obligation{mkOb(c, rid, u, "typedef validator", found, Proved, "the input's tag is compared with the typedef's name", true)}
+			}
+			return []Obligation{mkOb(c, rid, u, "typedef validator", fd, Violated, "the validator built from a typedef never looks at the input's tag: the typedef is used for the name in messages only, so (deftype ta (s) s) (deftype tb (s) s) (s:validate (s:make-validator ta s:string) (new tb \"x\")) accepts a value of a different type", true)}
+		}})
+}
